@@ -240,6 +240,15 @@ class ScriptedApp:
                 raise {"Exception": Exception, "ValueError": ValueError,
                        "KeyError": KeyError, "RuntimeError": RuntimeError}.get(
                     op[1], Exception)("scripted failure")
+            elif name == "raise_group":
+                # how a failure surfaces from an application that runs its work in a task group
+                inst.exit = "raise:ExceptionGroup"
+                raise ExceptionGroup("application task group", [ValueError("scripted failure")])
+            elif name == "cancel_self":
+                import asyncio
+
+                inst.exit = "cancelled"
+                raise asyncio.CancelledError()
             elif name == "return":
                 return
             elif name == "set_state":
